@@ -360,7 +360,8 @@ pub fn drive<C: Check>(c: &C, tier: Tier, seed: u64) -> i32 {
 
     for f in failures.iter_mut() {
         if let Ok(case) = serde_json::from_value::<C::Case>(f.case.clone()) {
-            if let Some(m) = c.minimize(&case, &f.sig) {
+            // minimisation is a convenience: a panic inside it must not hide the violation
+            if let Ok(Some(m)) = crate::util::guard(|| c.minimize(&case, &f.sig)) {
                 f.case = serde_json::to_value(&m).unwrap();
             }
         }
